@@ -89,7 +89,19 @@ impl Property for C19 {
                 user: i as u64,
                 expire_seconds: if k == TokKind::ShortLived { 2 } else { 600 },
                 timeout: 15,
-                addrs: if k == TokKind::WrongHost { vec![server_addr(3)] } else { vec![server_addr(0)] },
+                addrs: if k == TokKind::WrongHost {
+                    // another host, or addresses sharing an ip or a port with the server's two public addresses
+                    let nm = near_miss_addrs(0);
+                    match ctx.src.below(3) {
+                        0 => vec![server_addr(3)],
+                        1 => vec![nm[ctx.src.below(4)]],
+                        _ => nm.to_vec(),
+                    }
+                } else if ctx.src.chance(40) {
+                    vec![server_alt_addr(0)]
+                } else {
+                    vec![server_addr(0)]
+                },
                 key: if k == TokKind::ForeignKey { key(2) } else { key(1) },
                 protocol: if k == TokKind::ForeignProtocol { PROTO_OTHER } else { PROTO },
             };
@@ -113,7 +125,7 @@ impl Property for C19 {
                     if let Some(did) = nw.client_update(c, dt) {
                         let d = nw.pool[did].clone();
                         let lost = ctx.src.chance(70);
-                        if d.to == server_addr(0) && !lost {
+                        if (d.to == server_addr(0) || d.to == server_alt_addr(0)) && !lost {
                             let proven = connected_addrs(&nw).contains(&d.src);
                             nw.pool[did].presented += 1;
                             let out = nw.server_recv(0, d.src, &d.bytes);
